@@ -1003,24 +1003,18 @@ impl<'de, 'a> MapAccess<'de> for MapAcc<'a> {
         seed.deserialize(SvDe(self.cur.take().expect("value after key")))
     }
 }
-struct U32De(u32);
-impl<'de> Deserializer<'de> for U32De {
-    type Error = CapErr;
-    fn deserialize_any<V: Visitor<'de>>(self, v: V) -> Result<V::Value, CapErr> {
-        v.visit_u32(self.0)
-    }
-    serde::forward_to_deserialize_any! { bool i8 i16 i32 i64 i128 u8 u16 u32 u64 u128 f32 f64 char str string bytes byte_buf option unit unit_struct newtype_struct seq tuple tuple_struct map struct enum identifier ignored_any }
-}
 struct EnumAcc<'a>(&'a SV);
 impl<'de, 'a> EnumAccess<'de> for EnumAcc<'a> {
     type Error = CapErr;
     type Variant = Self;
     fn variant_seed<V: DeserializeSeed<'de>>(self, seed: V) -> Result<(V::Value, Self), CapErr> {
-        let idx = match self.0 {
-            SV::UnitVariant { idx, .. } | SV::NewtypeVariant { idx, .. } | SV::TupleVariant { idx, .. } | SV::StructVariant { idx, .. } => *idx,
+        // by NAME: serde numbers the variants differently for writing (all of them) and for reading
+        // (the unskipped ones), the name is unambiguous
+        let variant = match self.0 {
+            SV::UnitVariant { variant, .. } | SV::NewtypeVariant { variant, .. } | SV::TupleVariant { variant, .. } | SV::StructVariant { variant, .. } => *variant,
             _ => return Err(CapErr("not an enum term".into())),
         };
-        Ok((seed.deserialize(U32De(idx))?, self))
+        Ok((seed.deserialize(StrDe(variant))?, self))
     }
 }
 impl<'de, 'a> VariantAccess<'de> for EnumAcc<'a> {
